@@ -13,6 +13,12 @@ package server
 //@   requires unlocked: smhas(t.Clients, id) ==> !held(smget(t.Clients, id).Mutex)
 //@   modifies ghostint(t, "sent")
 //@   ghost-def ghostint(t, "sent") = old(ghostint(t, "sent")) + 1
+// C11: one frame per event: what goes to the socket is the content of a buffer that belongs to this
+// call alone, written by an encoder created for it in this call, and what is encoded is the event
+//@   guard-call sink:    "NewEncoder" argis(0, "buffer")
+//@   guard-call encoded: "Encode" argis(1, "pk")
+//@   guard-call content: "Bytes" argis(0, "buffer")
+//@   guard-call frame:   "WriteMessage" sameslice(arg(2), lastresult(Bytes))
 
 // C11: retained unless it has no event code or is one-shot; appended at the end.
 // (The second append of the return statement may write one more spare slot.)
@@ -31,6 +37,11 @@ package server
 //@   ensures kind:   ok ==> (pk.Head.Event == packager.Type.InitConnection.Type && pk.Body.SubEvent == packager.Type.InitConnection.OAuthRequest)
 //@   ensures user:   ok ==> (t.Profile != nil && t.Profile.Config.Operators != nil && exists(i, 0, len(t.Profile.Config.Operators.Users), t.Profile.Config.Operators.Users[i].Name == pk.Head.User))
 //@   ensures digest: ok ==> (typeis(pk.Body.Info["Password"], string) && unboxed(pk.Body.Info["Password"], string) == UserPassword)
+// the digest compared against is computed from the password of an operator who carries the login name:
+// the hash is fed only inside the name match, with that operator's password, and read out right after
+//@   guard-call pwsrc:  "Write" User.Name == pk.Head.User && bytesofstr(arg(1), User.Password)
+//@   guard-call pwhash: "Sum" User.Name == pk.Head.User
+//@   guard-call pwhex:  "EncodeToString" sameslice(arg(0), lastresult(Sum))
 //@   loop "for _, User := range t.Profile.Config.Operators.Users"
 //@     invariant found: UserFound ==> exists(i, 0, idx__, t.Profile.Config.Operators.Users[i].Name == pk.Head.User)
 
